@@ -1,13 +1,26 @@
 """C19: segment, triangle and vector predicates agree with exact geometry (away from the documented tolerances).
 
 Every discrete answer is decided with exact rational arithmetic on the exact values of the printed operands.  A
-configuration whose exact measure lies within a factor B of a threshold the crate documents/uses (1e-5 coincidence and
-collinearity, 100*EPSILON "zero", 1e-8 "barely touches", 1e-6 minimum segment length ...) is skipped as 'band'.
+configuration whose exact measure lies within a band around a threshold the crate documents/uses is skipped as 'band':
+factor B = 3 for derived measures (|ab x bc| < 1e-5 collinearity, line distance 1e-5, |a x b|^2 < 1e-5 parallel, 1e-8
+"barely touches", 100*EPSILON determinant ...), factor BC = 1.5 for thresholds applied to raw coordinates or coordinate
+differences (1e-5 compare, 100*EPSILON is_zero, 1e-6 minimum container length), plus the worst-case rounding noise of a
+well-conditioned evaluation where a parameter is compared with 0 / 1.  Inside the tolerance the predicate must answer
+"coincident / collinear / coplanar", clearly outside it must answer "not".
 Numeric results are compared with a float evaluation of the exact value (relative 1e-9 for f64, 1e-4 for f32, scaled by
 the conditioning of the quantity).
 
-Judged: the ops of harness group c19, the reported surface area on `dk.ctor / sp.ctor / cy.ctor` lines (groups c02/c03;
-aliases disk.ctor / sphere.ctor / cyl.ctor accepted) and `bb.misc` (group c15).  Everything else: ('skip','leaf')."""
+Judged: the ops of harness group c19, the reported surface area on `dk.ctor / sp.ctor / cy.ctor` lines (printed by the
+groups c02/c03; the aliases disk.ctor / sphere.ctor / cyl.ctor are accepted) and `bb.misc` (group c15).
+Everything else: ('skip','leaf').
+
+Skip keys: band (see above) | malformed-operand (non-finite/absurd operands, illegal constructor arguments) |
+ill-conditioned (rounding noise of any evaluation in this float format reaches the tolerance / the quantity) |
+degenerate, degenerate-segment (zero vector normalised; segment shorter than the coincidence tolerance and no clear-cut
+exact answer) | underflow | point-off-plane (test_point's documented precondition) | beyond-metre-scale and
+scale-dependent-tolerance (is_parallel's absolute |a x b|^2 test outside the property's metre-scale space) |
+within-coincidence-tolerance (intersection parameters off by more than rounding but less than 1e-4) |
+scaled-transform, not-built (primitive areas) | tie (max_extent) | leaf."""
 from fractions import Fraction
 import math
 from . import common as C
@@ -65,9 +78,6 @@ def same_pt(a, b):
     if d == 0: return 'in'
     if 16 * C.FMT.eps * maxabs(a, b) > T5: return 'band'       # (f32 far from the origin) the tolerance is below the rounding noise
     return near3(d, T5, BC)
-
-def bits_equal(toks, i, src, j, n=3):
-    return all(toks[i + k] == src[j + k] or (frac(toks[i + k]) == frac(src[j + k])) for k in range(n))
 
 # ---- vectors and points ------------------------------------------------------------------------------------------
 def j_vec_cross(ln):
@@ -268,8 +278,10 @@ def on_seg_exact(p, s, e):
     if vnorm2(vcross(ap, ab)) != 0: return False
     return 0 <= vdot(ap, ab) <= vnorm2(ab)
 
-def pt_on_seg_status(s, e, q):
-    """segment with clearly distinct ends: 'inside' | 'outside' | 'band' | 'ill'   (+ a short reason)"""
+def pt_on_seg_status(s, e, q, by_distance=False):
+    """segment with clearly distinct ends: 'inside' | 'outside' | 'band' | 'ill'   (+ a short reason).
+    Collinearity tolerance: |aq x ab| < 1e-5 (is_collinear: distance to the line times the segment length); with
+    by_distance (contains_point) also the distance to the line itself must be within 1e-5."""
     if q == s or q == e: return 'inside', 'end point'
     ab = vsub(e, s); aq = vsub(q, s); l2 = vnorm2(ab); l = fsqrt(l2)
     if ill_conditioned((s, e, q), (l, flen(aq)), T5): return 'ill', ''
@@ -282,6 +294,10 @@ def pt_on_seg_status(s, e, q):
         return 'outside', 'off the line: |aq x ab| = %s' % g(fsqrt(x2))
     t = vdot(aq, ab) / l2
     dline = fsqrt(x2) / l
+    if by_distance:
+        sd = near3sq(x2 / l2, T5)
+        if sd == 'band': return 'band', ''
+        if sd == 'out': return 'outside', 'off the line by %s' % g(dline)
     delta = 4 * dline / l + 16 * float(C.FMT.eps) * (1 + float(maxabs(s, e, q)) / l)
     if delta < t < 1 - delta: return 'inside', 't = %s, %s off the line' % (g(t), g(dline))
     if t < -delta or t > 1 + delta: return 'outside', 't = %s' % g(t)
@@ -306,7 +322,7 @@ def j_seg_cpt(ln):
         else: return ('skip', 'degenerate-segment')
         if got != want: return ('fail', 'point-on-short-segment-rejected' if want else 'far-point-on-short-segment-accepted', 'segment of extent %s, point at distance %s: contains_point=%s' % (g(linf), g(fsqrt(dist2_pt_seg(p, s, e))), got))
         return OK
-    st, why = pt_on_seg_status(s, e, p)
+    st, why = pt_on_seg_status(s, e, p, True)
     if st == 'ill': return ('skip', 'ill-conditioned')
     if st == 'band': return BAND
     if got is None: return ('fail', 'contains-point-err', 'Err for a proper segment (%s)' % why)
@@ -515,14 +531,14 @@ def j_tri_new(ln):
     area = T.nl / 2
     if abs(to_float(R[3]) - area) > rel * area: return ('fail', 'triangle-area', 'area %s expected, %s reported' % (g(area), g(to_float(R[3]))))
     rad = T.lab * T.lbc * T.lca / (2 * T.nl)
-    if abs(to_float(R[4]) - rad) > rel * rad * T.cond: return ('fail', 'triangle-circumradius', 'circumradius %s expected, %s reported' % (g(rad), g(to_float(R[4]))))
+    if abs(to_float(R[4]) - rad) > rel * rad: return ('fail', 'triangle-circumradius', 'circumradius %s expected, %s reported' % (g(rad), g(to_float(R[4]))))
     asp = rad / lmin
-    if R[5] != R[6] or abs(to_float(R[5]) - asp) > rel * asp * T.cond: return ('fail', 'triangle-aspect-ratio', 'aspect ratio %s expected, %s reported' % (g(asp), g(to_float(R[5]))))
+    if R[5] != R[6] or abs(to_float(R[5]) - asp) > rel * asp: return ('fail', 'triangle-aspect-ratio', 'aspect ratio %s expected, %s reported' % (g(asp), g(to_float(R[5]))))
     l1, l2 = vnorm2(T.e1), vnorm2(T.e2)
     off = vscale(vadd(vscale(vcross(T.n, T.e1), l2), vscale(vcross(T.e2, T.n), l1)), 1 / (2 * T.n2))
     cc = vadd(T.a, off)
     e = flen(vsub(P(R, 7), cc))
-    if e > rel * T.cond * rad + REL() * T.M: return ('fail', 'triangle-circumcentre', 'circumcentre off by %s (circumradius %s)' % (g(e), g(rad)))
+    if e > rel * rad + REL() * T.M: return ('fail', 'triangle-circumcentre', 'circumcentre off by %s (circumradius %s)' % (g(e), g(rad)))
     cen = vscale(vadd(vadd(T.a, T.b), T.c), Fraction(1, 3))
     if not vec_ok(R, 10, cen, max(T.M, 1e-300)): return ('fail', 'triangle-centroid', 'centroid is not (a+b+c)/3')
     lo = tuple(min(T.a[k], T.b[k], T.c[k]) for k in range(3)); hi = tuple(max(T.a[k], T.b[k], T.c[k]) for k in range(3))
@@ -702,17 +718,18 @@ def rd_ot(toks, i):
             i += 1
     return True, scaled, fin, i
 
-def area_check(kind, got_tok, want, what):
+def area_check(kind, got_tok, want, what, scale=None):
+    """scale: magnitude of the terms the area is a difference of (conditioning), default |area|"""
     if not is_finite(got_tok): return ('fail', kind + '-area', 'area not finite (%s)' % what)
     got = to_float(got_tok)
-    if abs(got - want) > REL() * abs(want): return ('fail', kind + '-area', 'area %.12g expected (%s), %.12g reported' % (want, what, got))
+    if abs(got - want) > REL() * (abs(want) if scale is None else scale): return ('fail', kind + '-area', 'area %.12g expected (%s), %.12g reported' % (want, what, got))
     return OK
 
 def phi_of(tok):
     """phi_max in degrees -> radians (None when outside the documented 0..360 range)"""
-    pm = to_float(tok)
-    if not (0 <= pm <= 360): return None
-    return math.radians(pm)
+    pm = to_float(tok); e = float(C.FMT.eps)
+    if not (-e <= pm <= 360 + e): return None
+    return math.radians(min(max(pm, 0.0), 360.0))                # documented: accepted within EPSILON and clamped
 
 def j_sphere(ln):
     A, R = ln.args, ln.res
@@ -758,7 +775,7 @@ def j_cyl(ln):
             rad = to_float(A[1]); L = float(frac(A[3]) - frac(A[2])); phi = phi_of(A[4])
         else: return ('skip', 'leaf')
     except IndexError: return MALFORMED
-    if rad <= 0 or L <= 0 or phi is None: return MALFORMED
+    if rad <= 0 or L < 0 or phi is None: return MALFORMED
     if R[0] != 'ok': return ('skip', 'not-built')
     return area_check('cylinder', R[7], phi * rad * L, 'r=%g length=%g phi=%g' % (rad, L, phi))
 
@@ -782,8 +799,7 @@ def j_disk(ln):
     if R[0] != 'ok': return ('skip', 'not-built')
     # annular sector: phi/2 * (R^2 - r^2)
     want = phi * 0.5 * float(frac(A[7]) ** 2 - (frac(A[8]) ** 2 if k == 'D1' else 0))
-    if want == 0: return OK if is_finite(R[1]) and to_float(R[1]) == 0 else ('fail', 'disk-area', 'area 0 expected')
-    return area_check('disk', R[1], want, 'R=%g r=%g phi=%g' % (rad, inner, phi))
+    return area_check('disk', R[1], want, 'R=%g r=%g phi=%g' % (rad, inner, phi), phi * 0.5 * (rad * rad + inner * inner))
 
 def j_bb_misc(ln):
     A, R = ln.args, ln.res
@@ -791,14 +807,13 @@ def j_bb_misc(ln):
     d = vsub(hi, lo)
     if min(d) < 0: return MALFORMED
     area = 2 * (d[0] * d[1] + d[0] * d[2] + d[1] * d[2])
-    if not is_finite(R[1]) or abs(frac(R[1]) - area) > Fraction(REL()) * max(area, Fraction(1, 10**300)) + 0:
-        # the extents are formed in floating point: allow eps*|coordinates| on each
-        M = maxabs(lo, hi); slack = 8 * C.FMT.eps * M * (d[0] + d[1] + d[2]) * 2
-        if not is_finite(R[1]) or abs(frac(R[1]) - area) > Fraction(REL()) * area + slack:
-            return ('fail', 'box-surface-area', 'area %s expected, %s reported' % (g(area), g(to_float(R[1])) if is_finite(R[1]) else R[1]))
+    M = maxabs(lo, hi)
+    # the extents are formed in floating point: allow eps*|coordinates| on each of them
+    slack = 16 * C.FMT.eps * M * (d[0] + d[1] + d[2])
+    if not is_finite(R[1]) or abs(frac(R[1]) - area) > Fraction(REL()) * area + slack:
+        return ('fail', 'box-surface-area', 'area %s expected, %s reported' % (g(area), g(to_float(R[1])) if is_finite(R[1]) else R[1]))
     ax = int(R[0]); m = max(d)
     top = sorted(d, reverse=True)
-    M = maxabs(lo, hi)
     if top[0] - top[1] <= 8 * C.FMT.eps * max(M, top[0]): return ('skip', 'tie')
     if d[ax] != m: return ('fail', 'box-max-extent', 'extents %s %s %s, axis %d reported' % (g(d[0]), g(d[1]), g(d[2]), ax))
     return OK
@@ -822,6 +837,6 @@ def judge(ln):
     nums = ln.args[:-1] if op == 'tri.idx' else ln.args
     if not sane(nums):
         # absurd operands are outside the property; a panic is still not acceptable where none is documented
-        if ln.res and ln.res[0] == 'panic' and not op.startswith('tri.'): return ('fail', 'panic', 'panic on non-finite operands')
+        if ln.res and ln.res[0] == 'panic': return ('fail', 'panic', 'panic on non-finite operands')
         return MALFORMED
     return f(ln)
